@@ -38,6 +38,9 @@ def build_doc(h):
     )
 
     doc = DesignSpaceDocument()
+    if h.get("fmt"):
+        # e.g. a document that was read from a version 4 file and is being extended
+        doc.formatVersion = h["fmt"]
     axes = []  # (name, kind, lo, default, hi, values)
     used_names, used_tags = set(), set()
     counters = {"src": 0, "inst": 0, "rule": 0, "vf": 0, "label": 0}
@@ -226,6 +229,11 @@ def build_doc(h):
             doc.lib = gen_lib(r)
         elif name == "label":
             pass
+    if h.get("fmt", "") and str(h["fmt"]).startswith("4"):
+        # a version 4 document cannot express partial locations (its reader completes them with the
+        # axis defaults): a document kept at version 4 carries full design locations
+        for d in list(doc.sources) + [i for i in doc.instances if not i.userLocation and not i.locationLabel]:
+            d.designLocation = d.getFullDesignLocation(doc)
     return doc, {"axes": axes, "monotone": monotone}
 
 
@@ -318,7 +326,16 @@ def execute(ctx, h):
             b1 = f.read()
         events.append(prng.bdigest(b1))
         res["states"].append(prng.bdigest(b1))
-        back = DesignSpaceDocument.fromfile(p1)
+        try:
+            back = DesignSpaceDocument.fromfile(p1)
+        except DesignSpaceDocumentError as e:
+            if not doc.axes:
+                # an axis-less document is only meaningful from version 5 on; version 4 readers refuse it
+                events.append(["read-rejected-no-axes", str(e)[:60]])
+                probes["B.rejected"] = 1
+                return res
+            fail("written-designspace-unreadable", "the reader refused a document the writer produced: %s" % str(e)[:200])
+            return res
         probes["B.roundtrip"] = 1
         after = norm(back.asdict())
         d = first_diff(before, after)
